@@ -197,9 +197,3 @@ Example C05_nonvacuous :
          (wrun_from ex_cid ex_b58 (winit default_root exNNS) (take 4 ex_hist)) co)))
       [(exCtx 5, PutNamed (exBlob 2) [] exPub [9%N] [97;97;97]%N [])] = [VFault].
 Proof. vm_compute. auto. Qed.
-
-(** Source constants.  The literals of the model behind this property are tied to the
-    constants of /repo's Go sources (Gen/Params.v, regenerated from the working tree on
-    every run) in Proofs/TiesContainer.v; requiring that file here makes the obligations of this
-    property fail when a constant it depends on is edited in the source. *)
-Require Verif.Proofs.TiesContainer.
